@@ -3,14 +3,198 @@
 S1  Coq: specification cursor (zipper) lemmas + cursor_refines for the modelled gap logic (Props/C18.v)
 S3  the property itself: every value returned by Cursor / CursorMut of the real crate and the table
     after close()/drop must equal what the EXTRACTED specification cursor returns on the same script.
+S2  shape correspondence of the splice model: for every mutable cursor session of every (program, configuration)
+    run the harness records the REAL tree before the session (Table::verif_shape) and after it; the EXTRACTED
+    model (coq/Btree/ShapeCursor.v: the gap logic driving splice_insert_run / pop_leaf_entry on the shape model)
+    is started from the tree before and must produce the tree after, node by node (keys, value lengths,
+    separators, dirty flags, allocated and used page lengths).  A difference alone is not a violation: the
+    differing program goes through the S3 oracle under every configuration, then every prefix of the differing
+    session, then fresh programs from other seeds; a behavioural difference is a replayable violation, otherwise
+    VIOLATION ... no-failing-input-found.
 """
 import json
 import os
 import re
+import shutil
+import subprocess
+import time
+from concurrent.futures import ThreadPoolExecutor
 
 import vlib
 
 from props.c04 import blocks, case_blocks, crashed_run, run_file, shrink
+
+
+def first_diff_token(a, b):
+    ta, tb = a.split(" "), b.split(" ")
+    j = 0
+    while j < min(len(ta), len(tb)) and ta[j] == tb[j]:
+        j += 1
+    cut = lambda t: t if len(t) <= 160 else t[:70] + "..." + t[-70:]
+    return j, " ".join(cut(t) for t in ta[max(0, j - 1):j + 2]), " ".join(cut(t) for t in tb[max(0, j - 1):j + 2])
+
+
+def session_variants(lines, sidx, base_id, limit=40):
+    """Programs around a differing session: the program cut after the session, with the session cut after k of its
+    operations (every prefix when short, else a spread + the last ones), each followed by len + a full scan."""
+    w = [i for i, l in enumerate(lines) if l.startswith("W ")]
+    if sidx >= len(w):
+        return []
+    li = w[sidx]
+    t = lines[li].split(" ")
+    ops = [x for x in t[3:] if x not in ("c", "x")]
+    n = len(ops)
+    ks = sorted(set(list(range(1, n + 1)) if n <= limit else
+                    [max(1, (n * i) // (limit - 10)) for i in range(1, limit - 9)] + list(range(n - 9, n + 1))))
+    out = []
+    head = lines[0].split(" ")
+    for vi, k in enumerate(ks):
+        for end in ("c", "x"):
+            prog = [" ".join([head[0], str(base_id + 2 * vi + (end == "x"))] + head[2:])] + lines[1:li]
+            prog.append(" ".join(t[:3] + ops[:k] + [end]))
+            prog += ["N", "Q u u d", "K", "O"]
+            out.append(prog)
+    return out
+
+
+def shape_stage(ctx, cov, cases):
+    """S2 for the splice model.  Returns (s2_ok, detail); records violations found by the directed search."""
+    t0 = time.time()
+    cfgs = sorted(m.group(1) for m in (re.match(r"shapein\.(.+)\.txt$", fn) for fn in os.listdir(ctx.workdir)) if m)
+    exe, msg = vlib.ocaml_driver("c18")
+    if exe is None:
+        return False, "model driver build failed: %s" % msg[-800:]
+
+    def one(cfg):
+        return cfg, ctx.driver("c18", "shapein.%s.txt" % cfg, "shapemodel.%s.txt" % cfg, args=["shape", "shape_markers.%s.txt" % cfg],
+                               timeout=900 if ctx.quick else 6000)
+    with ThreadPoolExecutor(max_workers=4) as ex:
+        res = list(ex.map(one, cfgs))
+    for cfg, (rc, err) in res:
+        if rc != 0:
+            return False, "shape model driver failed under %s rc=%s: %s" % (cfg, rc, err)
+    markers = {}
+    compared = 0
+    per_cfg = {}
+    bad = []
+    for cfg in cfgs:
+        try:
+            for l in open(os.path.join(ctx.workdir, "shape_markers.%s.txt" % cfg)):
+                k, v = l.strip().rsplit("=", 1)
+                markers[k] = markers.get(k, 0) + int(v)
+        except OSError:
+            pass
+        impl = blocks(os.path.join(ctx.workdir, "shapeimpl.%s.txt" % cfg))
+        model = blocks(os.path.join(ctx.workdir, "shapemodel.%s.txt" % cfg))
+        n = 0
+        for pid, ls in impl.items():
+            ml = model.get(pid, [])
+            n += sum(1 for x in ls if x.startswith("S "))
+            if ls != ml:
+                for i in range(max(len(ls), len(ml))):
+                    a = ls[i] if i < len(ls) else "<missing>"
+                    b = ml[i] if i < len(ml) else "<missing>"
+                    if a != b:
+                        bad.append((pid, cfg, i, a, b))
+                        break
+        per_cfg[cfg] = n
+        compared += n
+    cov["shape_correspondence"] = {
+        "sessions_compared_node_by_node": compared, "per_configuration": per_cfg, "differing_runs": len(bad),
+        "path_markers (counted by the driver on the model's trees)": markers,
+        "model_self_checks": "per session: tree_checkb of the result (INV!), erasure of the result == CursorSplice.t_session on the erased tree (ERASE!), "
+                             "contents and outputs == the specification cursor's (SPEC!); a marker line would differ from redb's output",
+        "seconds_model": round(time.time() - t0, 1),
+    }
+    if not bad:
+        return True, None
+    # ---- a correspondence break: does redb's behaviour violate the property somewhere near?
+    bad.sort(key=lambda x: sum(len(l) for l in cases[x[0]]))
+    details = []
+    searched = 0
+    for (pid, cfg, i, a, b) in bad[:4]:
+        lines = cases[pid]
+        j, ta, tb = first_diff_token(a, b)
+        wl = [l for l in lines if l.startswith("W ")]
+        details.append({"program": pid, "header": lines[0], "configuration": cfg, "session_number": i,
+                        "session": (wl[i] if i < len(wl) else "?")[:300], "first_differing_node_token": j,
+                        "redb": ta[:500], "model": tb[:500]})
+        progs = [lines] + session_variants(lines, i, 1000000 + 1000 * searched)
+        searched += len(progs)
+        flat = [l for p in progs for l in p]
+        d = [x for x in run_file(ctx, flat, "shape-dsearch", "c18") if not x[2].startswith("NO RETURN")]
+        if d:
+            cfg2, k, x, y = d[0]
+            # find the smallest variant that still differs
+            small = None
+            for p in sorted(progs, key=lambda p: sum(len(l) for l in p)):
+                d2 = run_file(ctx, p, "final", "c18")
+                if d2:
+                    small, (cfg2, k, x, y) = p, d2[0]
+                    break
+            small = small or flat
+            ctx.violation("c18-%s" % (x.split(" ")[0] if x != "<missing>" else y.split(" ")[0]),
+                          "found by the directed search after a shape difference of the splice model (program %d, session %d, configuration %s): cursor output "
+                          "differs from the specification cursor under configuration %s at output line %d: redb=%r spec=%r"
+                          % (pid, i, cfg, cfg2, k, x[:300], y[:300]),
+                          {"program": small, "config": cfg2, "line": k, "impl": x, "spec": y, "shape_difference": details[-1],
+                           "how_to_replay": "./check C18 --replay <this file>"})
+            break
+    if not ctx.violations:
+        # bigger budget: fresh programs from other seeds through the S3 oracle (same generator: long runs, long prefixes, flush crossings)
+        rounds = 3 if ctx.quick else 10
+        exe = vlib.cargo_bin("c18")[0]
+        drv = vlib.ocaml_driver("c18")[0]
+        for rnd in range(rounds):
+            wd = os.path.join(ctx.workdir, "shape-extra")
+            shutil.rmtree(wd, ignore_errors=True)
+            os.makedirs(wd)
+            env = dict(os.environ, VERIF_SEED=str(ctx.seed * 1000 + 18 + rnd), VERIF_TIER="quick")
+            try:
+                subprocess.run([exe, "300"], cwd=wd, env=env, stdout=subprocess.DEVNULL, stderr=subprocess.DEVNULL, timeout=600)
+                with open(os.path.join(wd, "cases.txt")) as fi, open(os.path.join(wd, "model.txt"), "w") as fo:
+                    subprocess.run(["bash", "-c", 'ulimit -s unlimited 2>/dev/null; exec "$0"', drv], stdin=fi, stdout=fo, stderr=subprocess.DEVNULL, timeout=600)
+            except (subprocess.TimeoutExpired, OSError):
+                continue
+            try:
+                model = blocks(os.path.join(wd, "model.txt"))
+                extra = case_blocks(os.path.join(wd, "cases.txt"))
+            except OSError:
+                continue
+            searched += len(extra)
+            hit = None
+            for fn in sorted(os.listdir(wd)):
+                mm = re.match(r"impl\.(.+)\.txt$", fn)
+                if not mm:
+                    continue
+                for pid, ls in blocks(os.path.join(wd, fn)).items():
+                    if ls != model.get(pid, []):
+                        hit = (pid, mm.group(1))
+                        break
+                if hit:
+                    break
+            if hit:
+                lines = extra[hit[0]]
+                small = shrink(ctx, lines, budget=30, name="c18")
+                d2 = run_file(ctx, small, "final", "c18")
+                if not d2:
+                    small = lines
+                    d2 = run_file(ctx, small, "final", "c18")
+                if d2:
+                    cfg2, k, x, y = d2[0]
+                    ctx.violation("c18-%s" % (x.split(" ")[0] if x != "<missing>" else y.split(" ")[0]),
+                                  "found by the directed search after a shape difference of the splice model: cursor output differs from the specification cursor "
+                                  "under configuration %s at output line %d: redb=%r spec=%r" % (cfg2, k, x[:300], y[:300]),
+                                  {"program": small, "config": cfg2, "line": k, "impl": x, "spec": y, "shape_difference": details[0],
+                                   "how_to_replay": "./check C18 --replay <this file>"})
+                    break
+    cov["shape_correspondence"]["directed_search_programs"] = searched
+    if ctx.violations:
+        return True, None
+    return False, {"what": "the real tree after a cursor session differs from the extracted splice model (coq/Btree/ShapeCursor.v) started from the real tree before it, "
+                           "on %d of the (program, configuration) runs (%d sessions compared); the S3 oracle found no behavioural difference on the differing programs "
+                           "under every configuration, on the prefixes of the differing sessions, nor on fresh programs (%d programs searched)" % (len(bad), compared, searched),
+                   "first_differences": details}
 
 
 def run(ctx):
@@ -109,6 +293,9 @@ def run(ctx):
                           "(program of %d lines; %d (program,config) runs differ in total)" % (cfg, i, a[:400], b[:400], len(small), len(bad)),
                           {"program": small, "config": cfg, "line": i, "impl": a, "spec": b,
                            "how_to_replay": "./check C18 --replay <this file>", "format": "see ocaml/c18_driver.ml / harness/src/bin/c18.rs"})
+    s2_ok, s2_detail = True, None
+    if not bad:
+        s2_ok, s2_detail = shape_stage(ctx, cov, case_blocks(os.path.join(ctx.workdir, "cases.txt")))
     cov["evaluations"] = runs
     cov["distinct_nontrivial"] = dn
     cov["rule"] = ("random cursor programs: table content, then sessions lower_bound_mut/upper_bound_mut + moves/peeks/inserts in both directions/removals + close or drop, "
@@ -124,6 +311,7 @@ def run(ctx):
                            "harness/src/bin/c18.rs + c04_util.rs (generator with its own shadow key set, canonical printer)",
                            "C15 for Key::compare = value order of the oracle's key type"]
     return ctx.finish("proof", cov,
-                      assumptions=["the gap logic is proved at the list level; where a flushed run lands in the tree (splice_insert_run, build_replacement_leaves, "
-                                   "rebuild_branch_level) is validated per run: outputs and full table scans after every session, commit and reopen"],
-                      s2_ok=True)
+                      assumptions=["the gap logic is proved at the list level; the tree-level splice (splice_insert_run, rebuild_branch_level, build_branch_nodes, "
+                                   "replace_branch_child, open_insert_run's position) is modelled in coq/Btree/CursorSplice.v; that the crate follows the model is "
+                                   "validated per run: node-by-node shape comparison after every mutable cursor session + outputs and full table scans"],
+                      s2_ok=s2_ok, s2_detail=s2_detail)
